@@ -42,6 +42,8 @@ def simplify(run):
     cfg = run['config']
     if cfg.get('peek'):
         c = copy.deepcopy(run); c['config']['peek'] = []; yield c
+    if cfg.get('hand_assigned'):
+        c = copy.deepcopy(run); c['config']['hand_assigned'] = []; yield c
     if cfg.get('late_inputs'):
         c = copy.deepcopy(run); c['config']['late_inputs'] = []; yield c
     if cfg['freeze'] != 'freeze_data':
